@@ -155,9 +155,13 @@ func (s *Server) WaitForMessage(timeout time.Duration) error {
 			return errors.New("timeout waiting for message")
 		case <-s.done:
 			return errors.New("server shutting down")
+		case <-s.ShutdownChan():
+			return errors.New("server shutting down")
 		}
 	}
-	// Wait indefinitely
+	// Wait indefinitely. The blocking-request handler waits here inside the
+	// protocol's receive loop, so the end of the connection has to be
+	// noticed here: neither ClientDone nor DoneChan can arrive any more
 	select {
 	case _, ok := <-s.newMessageSignal:
 		if !ok {
@@ -165,6 +169,8 @@ func (s *Server) WaitForMessage(timeout time.Duration) error {
 		}
 		return nil
 	case <-s.done:
+		return errors.New("server shutting down")
+	case <-s.ShutdownChan():
 		return errors.New("server shutting down")
 	}
 }
